@@ -40,6 +40,16 @@ CHECKS = {
    "1..4 scripted clients with 0..5 calls each (plain / oneway / error-producing, pipelined or split at arbitrary bytes) are delivered in a generated global order; at every quiescent point each client's received frames must equal (at frame boundaries) or be a prefix of (mid-frame) the sequential model of its own calls, carry only its own tag, and the service log per connection must equal its calls exactly once in order; the server future must stay pending.",
    "Trusted: the simulated transports (a read returns Pending only when nothing was delivered), the scripted service as the definition of 'as decided by the service'. zlink serves a complete frame that is followed by a partial one only when the partial one completes; the statement does not speak about latency, so only a prefix is demanded at such points.",
    "§3 C08"),
+ "C09": ("fault_enumeration", "vcheck",
+   "fault injection into the deterministic server simulation: property-based generation of scenarios with faulty connections + exhaustive placement of every fault kind at every script position / every k for EOF, read error and write failure; relational oracle (same scenario re-run with the faulty connections absent, healthy outputs byte-identical at every observation) + reference model + liveness probe connection",
+   "Faults (7 kinds of bad frame at any position, truncated frame then EOF, EOF / transport read error anywhere, write failure from the k-th write) are placed in one or two of 1..4 connections under generated global event orders; every healthy connection must receive byte-identical frames at every quiescent point compared with a second run in which the faulty connections do not exist, must equal the sequential model, and a connection that arrives after all faults must be served; Server::run() must stay pending.",
+   "Trusted: as C08. A peer that closes in the middle of a frame makes zlink drop the complete frames read together with the partial one; no listed property demands those replies, so a faulty connection is only checked for consistency (a prefix relation with its model, nothing foreign). The oversized-message fault is covered by C17, not here.",
+   "§3 C09"),
+ "C10": ("exploration", "vcheck",
+   "model-based property testing of streaming through the server simulation (proptest, shrinking): Sub calls answered with a harness-controlled stream, Push/End events placed anywhere in the global order, pipelined calls behind the Sub, write failures; exhaustive interleavings of one connection's stream events with another connection's deliveries x write failure at every k; oracle = sequential model extended with streams",
+   "At every quiescent point each client has received, for its calls in order, the reply or - for a streaming call - every item pushed so far in push order with exactly the pushed continues flag, nothing of the calls behind an open stream, and after the stream's end the pipelined calls in order; the other clients equal their own model while a stream is open; after a write failure at any item only that connection stops.",
+   "Trusted: as C08; the stream is a harness-controlled queue (item exists from its Push step on).",
+   "§3 C10"),
  "C06": ("exploration", "vcheck",
    "model-based property testing of chains (proptest, shrinking): generated flag sequences + conforming server scripts + trailing frames + chunkings, stream polled by hand; exhaustive enumeration of all flag sequences up to length 4 x 3 script families x 3 trailing counts x 6 chunkings; oracle = owed-reply model + reference decode + transport poll counter",
    "Chains of 1..6 calls over {plain, oneway, more} are sent through Connection::chain_call/append/send against a scripted transport that then stays silent; the single transport write must equal the calls' reference encodings, the stream must yield exactly the owed replies (as the reference classifies each frame) and then None without polling the transport, and a later receive_reply must still find every trailing frame.",
@@ -50,6 +60,11 @@ CHECKS = {
    "Every inbound frame size up to limit+512 is received under 4-6 chunk sizes (terminated, unterminated+EOF, unterminated+waiting, behind pipelined prefixes) and every relevant outbound size is sent from an empty queue and behind an enqueued message: below the limit => intact, above => BufferOverflow with nothing of the refused message written, the queued message and a later message intact; the receive buffer (inferred from the slices offered to the read half) never exceeds limit+256. The production build confirms the inbound thresholds at 100 MiB.",
    "Trusted: the small-limit build differs from production only in the constant (cfg zlink_verif_small_buf; 83*256 so that doubling strategies do not land on it); size == limit is recorded but not judged; outbound near 100 MiB is unreachable (quadratic re-serialisation) and covered under the lowered limit only.",
    "§3 C17"),
+ "C18": ("exploration", "vcheck",
+   "history monitor over the service order recorded in the deterministic server simulation: proptest-generated role assignments (flooder / single / idle / closer / streamer at any list position) and event orders + exhaustive enumeration of flooder x single-caller positions among 2..5 connections under 4 schedules; oracle = round-robin monitor (strict within a run with unchanged connection set; counting bound across transitions) + the C08 reply model",
+   "Within one run of the server to quiescence, between two consecutive services of one connection every other connection that had a complete call waiting the whole time must have been served; across closures and streaming transitions the number of foreign calls served while an eligible call waits must not exceed connections x (transitions + 1).",
+   "Trusted: a call is 'waiting' from the delivery of its last byte (deliveries end at frame boundaries); a call queued behind its own connection's open stream counts as eligible only once the server has seen the stream end. Not claimed: that reply streams make progress while some client keeps calls buffered (the biased select polls streams last; see DESIGN.md §4 notes).",
+   "§3 C18"),
 }
 
 REASONS_PENDING = "check not built yet in this session; planned with property-based testing as described in DESIGN.md §3"
